@@ -52,6 +52,15 @@ class Result:
         else:
             self.bad(rule, instance, site, qualname, why_bad or why_ok, construct)
 
+    def frozen(self, cond, rule, instance, site, qualname, why_ok="", why_undecided="", construct=""):
+        """An obligation recognised through the *current idiom* of the code.  When the idiom is not
+        found the check cannot decide (the edit may be a behaviour-preserving rewrite): that is an
+        ANALYSIS-ERROR (exit 2), never a VIOLATION."""
+        if cond:
+            self.ok(rule, instance, site, qualname, why_ok, construct)
+        else:
+            self.obligations.append(Ob(rule, instance, site, qualname, "undecided", why_undecided or why_ok, construct))
+
     def floor(self, name: str, measured: int, minimum: int):
         self.floors[name] = (measured, minimum)
 
@@ -98,6 +107,11 @@ def finish(res: Result, tier: str, t0: float, level: str = "other") -> int:
                 viols.append(ob)
     # floors: a rule that matches too little passes vacuously -> analysis broken.  A violation that
     # was found is still a violation, so floors only stop a run that would otherwise pass.
+    undec = [ob for ob in res.obligations if ob.status == "undecided"]
+    if not viols and undec:
+        for ob in undec[:5]:
+            print(f"UNDECIDED {ob.rule} {ob.site} {ob.qualname}: {ob.why}")
+        raise AnalysisError(f"{len(undec)} obligation(s) could not be decided: the idiom the rule recognises was not found ({undec[0].rule} at {undec[0].site})")
     if not viols:
         for name, (m, mn) in res.floors.items():
             if m < mn:
